@@ -228,7 +228,7 @@ func classifyError(err error) domain.HealthCheckErrorType {
 }
 
 // determineStatus converts HTTP response info into endpoint status
-// Status logic: offline for network errors, busy for slow responses, healthy otherwise
+// Status logic: offline for network errors, healthy for a 2xx answer, unhealthy otherwise
 func determineStatus(statusCode int, latency time.Duration, err error, errorType domain.HealthCheckErrorType) domain.EndpointStatus {
 	if err != nil {
 		switch errorType {
@@ -239,15 +239,12 @@ func determineStatus(statusCode int, latency time.Duration, err error, errorType
 		}
 	}
 
+	// An answer that took long is still the backend's answer. Marking it busy took the endpoint
+	// out of routing (requests only go to healthy endpoints) and counted the check as a failure
+	// (backoff, health circuit) although it had succeeded - and let an error status pass as a
+	// routable one. The latency stays visible in LastLatency.
 	if statusCode >= HealthyEndpointStatusRangeStart && statusCode < HealthyEndpointStatusRangeEnd {
-		if latency > SlowResponseThreshold {
-			return domain.StatusBusy
-		}
 		return domain.StatusHealthy
-	}
-
-	if latency > SlowResponseThreshold {
-		return domain.StatusBusy
 	}
 	return domain.StatusUnhealthy
 }
